@@ -1,6 +1,7 @@
 (* C05 - Crash attribution matches what the caller supplied.  Property theorems only. *)
 From Coq Require Import List NArith Arith.
 From MDW Require Import Bytes CpuCtx GenTypes Generated CtxModel CtxProofs CtxTheorems ThreadList.
+From MDW Require MemWriter Writer Hoare MiniDump Image ImageThreads.
 Import ListNotations.
 Local Open Scope nat_scope.
 
@@ -37,3 +38,27 @@ Print Assumptions C05_with_context.
 Theorem C05_without_context : forall ip, exception_fields None (Some ip) = (0xFFFFFFFF%N, 0%N, ip).
 Proof. reflexivity. Qed.
 Print Assumptions C05_without_context.
+
+(* The exception record in the FINAL image of every dump: the fourth directory entry; it names the blamed thread, carries the
+   supplied signal number / code / fault address (or the "dump requested" code and the blamed thread's instruction pointer), and
+   its context location is the one the thread list recorded for the blamed thread. *)
+Theorem C05_whole_image_exception : forall c dirs lg s',
+  Image.image c MiniDump.empty_wst = MemWriter.Ok ((dirs, lg), s') -> Hoare.small (Hoare.blen s') ->
+  exists rs blocks cc off,
+    ImageThreads.run_rel (ImageThreads.thread_says c 248) (Writer.w_buf s') (Image.ic_threads c) ([], MiniDump.CNone) rs (blocks, cc) /\
+    (let '(code, flags, addr, ctxloc) := ImageThreads.exception_fields c cc in
+     slice (Writer.w_buf s') off 168 = Image.enc_exception (Image.ic_blamed c) code flags addr ctxloc) /\
+    nth_error dirs 3 = Some (MiniDump.T_EXC, {| MemWriter.l_rva := N.of_nat off; MemWriter.l_size := 168 |}).
+Proof. exact ImageThreads.image_exception. Qed.
+Print Assumptions C05_whole_image_exception.
+
+(* which context that is: none of the listed threads has the blamed id and nothing was recorded, or the record of the (last)
+   listed thread with the blamed id - the crash context's registers if one was supplied, else that thread's own, with its
+   instruction pointer as the address *)
+Theorem C05_exception_shares_the_blamed_context : forall c lo b ts st rs st',
+  ImageThreads.run_rel (ImageThreads.thread_says c lo) b ts st rs st' ->
+  (snd st' = snd st /\ Forall (fun t => ImageThreads.t_blamed c t = false) ts) \/
+  (exists t r, In (t, r) (combine ts rs) /\ ImageThreads.t_blamed c t = true /\ ImageThreads.designates lo b (snd r) (Image.it_ctx t) /\
+     snd st' = if ImageThreads.t_crash c t then MiniDump.CCtx (snd r) else MiniDump.CCtxAddr (snd r) (unle (slice (Image.it_ctx t) 248 8))).
+Proof. exact ImageThreads.cc_says. Qed.
+Print Assumptions C05_exception_shares_the_blamed_context.
